@@ -85,6 +85,16 @@ def specOp (wo : WidthOps W) (ho : HeightOps H) (a : Den W H) : Op W H → Den W
   | .delRowStyle r =>
     { a with row := upd a.row r fun t => { t with style := 0, cellStyle := none } }
 
+/-- models model.rs::get_cell_style_index for a cell that does not exist: the row's style when it
+    has `custom_format`, else the style of the first column descriptor containing it, else 0 -/
+def emptyCellStyle (s : Sheet W H) (row column : Int) : Int :=
+  match rowCellStyle s.rows row with
+  | some k => k
+  | none =>
+    match findCol s.cols column with
+    | some d => d.style.getD 0
+    | none => 0
+
 /-- the facts about `f64` arithmetic the column laws rest on (hypotheses of the theorems; for
     doubles and the factor 9 = 2³+2⁰ the third is Kahan's x/9*9 = x; all three are checked on the
     running code by the correspondence and by the oracle) -/
